@@ -230,7 +230,9 @@ impl SourceCursor {
                 },
                 '\n' => { // 改行があっても続く部分に"^"か数値があれば続行
                     let tmp_index = self.index;
+                    let tmp_line = self.line;
                     self.next(); // skip '\n'
+                    self.line += 1;
                     self.skip_space_ret();
                     let ch2 = self.peek_n(0);
                     if ch2 == '^' {
@@ -238,6 +240,7 @@ impl SourceCursor {
                     }
                     // rollback
                     self.index = tmp_index;
+                    self.line = tmp_line;
                     break;
                 }
                 _ => { break; }
